@@ -41,6 +41,8 @@ def to_iter(I, v):
     if isinstance(v, Seq): return Iter("owned", cells=list(v.cells), i=0)
     if isinstance(v, Agg) and v.name and v.name.split("::")[-1] in ("Range",):
         return Iter("range", lo=Cell(v.cells[0].v), hi=v.cells[1].v)
+    if isinstance(v, Agg) and v.name and v.name.split("::")[-1] in ("RangeFrom",):
+        return Iter("range", lo=Cell(v.cells[0].v), hi=None)
     if isinstance(v, Agg) and v.name and v.name.split("::")[-1] in ("RangeInclusive",):
         return Iter("range", lo=Cell(v.cells[0].v), hi=int_binop("Add", v.cells[1].v, Int(v.cells[1].v.ty, 1)))
     if isinstance(v, EnumV) and v.d.name == "Option":
@@ -90,6 +92,11 @@ def next_(I, it):
         return x
     if k == "range":
         lo = dd["lo"].v
+        if dd["hi"] is None:                       # RangeFrom: unbounded (overflow of the counter panics like std in debug)
+            r, o = int_overflow_op("Add", lo, Int(lo.ty, 1))
+            if I.E.branch(o, "rangefrom_ovf"): raise Panic("attempt to add with overflow (RangeFrom iterator)")
+            dd["lo"].v = r
+            return lo
         if not I.E.branch(int_binop("Lt", lo, dd["hi"]), "range"): return END
         dd["lo"].v = int_binop("Add", lo, Int(lo.ty, 1))
         return lo
